@@ -577,6 +577,10 @@ theorem oldNewSim (g : Level) (p : Prog) : ∀ (ctx : Option (Option Level)) (so
     simp only [runWith, traceWith]
     exact ⟨by first | rfl | trivial, k2, k3, by rw [k4, k1, ev_of_rel _ k2]⟩
   | raise e => intro ctx so sn _ hi hr; exact ⟨by first | rfl | trivial, hr, post_refl hi, rfl⟩
+  | verdict r a m =>
+    intro ctx so sn _ hi hr
+    simp only [runWith, traceWith]
+    exact ⟨by first | rfl | trivial, hr, post_refl hi, by rw [eqResult_of_rel hr, ev_of_rel _ hr]⟩
   | eq r a m =>
     intro ctx so sn _ hi hr
     obtain ⟨_, _, _, _, _, _, _, _, hout, hrel, hpost⟩ :=
